@@ -841,6 +841,19 @@ func c02(c *Ctx) {
 			r.Check("reinit:"+f, got == w2, run.Pos(), fmt.Sprintf("before the state loop l.%s <- %q (required %q)", f, got, w2))
 		}
 	})
+
+	c.Rule("C02.R8", "totality: every line ends in accept or reject - all panic obligations (index, slice, make, conversion-guarded arithmetic) inside the lexer package are discharged (engine of C03.R2 restricted to internal/lexer, with the Stage-A invariant witnesses)", 20, func(r *Rule) {
+		e := newBndEngine(w)
+		var fns []*ssa.Function
+		for _, fn := range c03Scope(w) {
+			if fnPkgPath(fn) == Mod+"/"+lexPkg {
+				fns = append(fns, fn)
+			}
+		}
+		bndRule(c, r, e, fns)
+		lexerStageA(c, r, e)
+		r.Note(fmt.Sprintf("%d lexer functions", len(fns)))
+	})
 }
 
 func stripConvConst(v ssa.Value) ssa.Value {
